@@ -1672,8 +1672,12 @@ fn big_values(p: Profile) -> bool {
 }
 
 /// (the last three hold characters of several bytes that UPPER / LOWER leave alone: LENGTH counts characters)
-const WORDS: [&str; 20] = [
+/// (the last eight are longer than eight bytes — the comparator takes such texts in aligned 8-byte groups — and differ from
+/// one another in several places of one group, or start a group with a byte ≥ 0x80)
+const WORDS: [&str; 28] = [
     "", "a", "ab", "abc", "b", "ba", "B", "x", "xy", "a%", "a_c", "zz", " a", "b  ", "  ", " Ab ", "\tq\t ", "€", "a€b", "中文x",
+    "anderson, zoe", "brown, alice", "anderson, amy", "€mile zola, paris", "zebra crossing 12", "abcdefgh€x", "abcdefghzz",
+    "abcdefghzy",
 ];
 const PATTERNS: [&str; 14] = ["%", "a%", "%b", "%b%", "_", "a_", "_b%", "abc", "", "%%", "a_c", "__", "x%y", "%a%b%"];
 
